@@ -33,6 +33,8 @@ var foldAlphabet = []rune{
 	'a', 'b', 'k', 'K', 'K', 's', 'S', 'ſ', 'σ', 'ς', 'Σ', 'µ', 'μ', 'Μ', 'ß', 'ẞ', 'i', 'I', 'İ', 'ı',
 	'ǅ', 'ǆ', 'Ǆ', 'ⱥ', 'Ⱥ', 'θ', 'ϑ', 'Θ', 'ϴ', 'ω', 'Ω', 'Ω', 'å', 'Å', 'Å', 'é', 'É',
 	'Ꭰ', 'ꭰ', 'ა', 'Ა', '\U00010400', '\U00010428', 'x', 'Z',
+	// cased runes that are not letters: circled letters (So), Roman numerals (Nl)
+	'Ⓐ', 'ⓐ', 'Ⓩ', 'ⓩ', 'Ⅻ', 'ⅻ', 'Ⅰ', 'ⅰ',
 }
 
 func orbit(r rune) []rune {
